@@ -190,6 +190,9 @@ func ItemCollectionDeduplication(recCols ...*ItemCollection) ItemCollection {
 // Collection and CollectionPage.
 // It also converts an IRI slice into an equivalent ItemCollection.
 func ToItemCollection(it Item) (*ItemCollection, error) {
+	if IsNil(it) {
+		return nil, nil
+	}
 	switch i := it.(type) {
 	case *ItemCollection:
 		return i, nil
